@@ -68,7 +68,7 @@ theorem ex_os2 : Metrics.Os2Dom (os2InfoOf exFileFont) where
   ur_rng := by decide +kernel
   bit57 := by
     have h : (os2InfoOf exFileFont).unicodeRange = [0,0,0,0] := by decide +kernel
-    have h2 : (os2InfoOf exFileFont).lastCharIndex = 0 := by decide +kernel
+    have h2 : (os2InfoOf exFileFont).lastCharIndex = 72 := by decide +kernel
     rw [h, h2]
     intro u hu
     simp at hu
@@ -76,6 +76,37 @@ theorem ex_os2 : Metrics.Os2Dom (os2InfoOf exFileFont) where
     decide
   cpr := by decide +kernel
   perm := by decide +kernel
+
+/-! ### cmap, glyph names -/
+
+theorem ex_validSub (k : CmapTable.Key) (hp : k.p ≤ 4) (he : k.e < 65536) (hl : k.l = 0) (hk : k.p ≠ 1) :
+    CmapTable.ValidSub k exCmap4 := by
+  refine ⟨hp, he, 4, by decide +kernel, ?_⟩
+  have hk4 : CmapTable.hdrKind 4 = .len16 := by decide
+  rw [hk4]
+  refine ⟨by decide, by decide +kernel, 0, by decide +kernel, ?_⟩
+  rw [hl, if_pos hk]
+
+theorem ex_cmap : ∀ t, exFileFont.cmap = some t → (∀ kd ∈ t, CmapTable.ValidSub kd.1 kd.2) ∧ t.length < 65536 ∧
+    (CmapTable.encode t).length < 4294967296 := by
+  intro t ht
+  cases ht
+  refine ⟨?_, by decide, by decide +kernel⟩
+  intro kd hkd
+  simp only [List.mem_cons, List.not_mem_nil, or_false] at hkd
+  rcases hkd with rfl | rfl
+  · exact ex_validSub _ (by decide) (by decide) rfl (by decide)
+  · exact ex_validSub _ (by decide) (by decide) rfl (by decide)
+
+theorem ex_names : NamesOK exFileFont.glyphNames := by
+  intro ns h
+  cases h
+  exact ⟨by decide, by decide +kernel, by decide +kernel⟩
+
+theorem ex_namesLen : ∀ ns, exFileFont.glyphNames = some ns → ns.length = exFileFont.glyphs.length := by
+  intro ns h
+  cases h
+  rfl
 
 /-! ### name -/
 
@@ -168,13 +199,16 @@ theorem C01_file_example_in_domain : InDomainFile exEnvF exFileFont where
   lineGap := ex_lineGap
   caret := ex_caret
   name := ex_nameEntries ▸ ex_name
+  cmap := ex_cmap
+  names := ex_names
+  namesLen := ex_namesLen
   version := ex_version
   sideTags := ex_sideTags
   sideNodup := ex_sideNodup
   sideCount := ex_sideCount
   size := ex_size
 
-/-- the theorem applied to the example: a 968-byte file that reads back as the normal form -/
+/-- the theorem applied to the example: a 1052-byte file that reads back as the normal form -/
 theorem C01_file_example : ∃ b, writeFile exEnvF exFileFont = .ok b ∧
     readFile (fun _ _ => 0) b = .ok (nfFile exFileFont) :=
   C01_file_roundtrip exEnvF (fun _ _ => 0) exFileFont C01_file_example_in_domain
